@@ -46,3 +46,29 @@ Print Assumptions C08_names_unique.
 Theorem C08_fresh_history_exists : fresh_run f18_cfg f18_acts.
 Proof. exact f18_fresh. Qed.
 Print Assumptions C08_fresh_history_exists.
+
+(* The whole property over runs, in the form of the walk monitor that is evaluated on the implementation's projected states:
+   at every step of every history without teardown whose algorithm replies are fresh, the stored assignment list has distinct
+   names, suggestionCount equals its length and is at most the largest requests ever stored, the previous list is a prefix of
+   it, an unchanged length leaves count and settings alone, and a longer list appends exactly requests - suggestionCount
+   names, which are the names of the reply handed to the suggestion reconcile in progress -- a reply of a sync all of whose
+   calls succeeded (with early stopping the rules call too): on an RPC error or a wrong-sized reply nothing is appended.
+   (Invariant SgInv over a ghost that remembers that reply, Proofs/WorldSugMon.v.) *)
+From KV Require Proofs.WorldSugMon Proofs.MonSound Corr.WorldMon.
+Theorem C08_monitor_sound : forall c acts,
+  valid_cfg c -> no_teardown acts -> fresh_run c acts ->
+  WorldMon.sug_walk c 0 None (WorldC.project (init c)) (MonSound.msteps (init c) acts) = true.
+Proof. exact WorldSugMon.sug_monitor_sound. Qed.
+Print Assumptions C08_monitor_sound.
+
+(* from any state that satisfies the invariants *)
+Theorem C08_sync_atomic_over_runs : forall maxreq lr w acts,
+  Inv w -> NDInv w -> WorldSugMon.SgInv lr w -> g_maxreq w <= maxreq -> no_teardown acts -> fresh_from w acts ->
+  WorldMon.sug_walk (w_cfg w) maxreq lr (WorldC.project w) (MonSound.msteps w acts) = true.
+Proof. exact WorldSugMon.sug_walk_model. Qed.
+Print Assumptions C08_sync_atomic_over_runs.
+
+(* Non-vacuity: the premises hold for the 751-action history of Proofs/F18.v (which contains RPC errors and appended replies). *)
+Example C08_monitor_sound_nonvacuous : valid_cfg f18_cfg /\ no_teardown f18_acts /\ fresh_run f18_cfg f18_acts.
+Proof. exact (conj (proj1 f18_premises_hold) (conj f18_no_teardown f18_fresh)). Qed.
+Print Assumptions C08_monitor_sound_nonvacuous.
